@@ -120,6 +120,9 @@ pub struct UnwindContext<'a> {
     fde: FrameDescriptionEntry<EndianArcSlice, usize>,
     debugee: &'a Debugee,
     cfa: RelocatedAddress,
+    /// True if the CFI row marks the return address register as undefined:
+    /// this is how the outermost frame (`_start`) says that it has no caller.
+    ra_undefined: bool,
 }
 
 impl<'a> UnwindContext<'a> {
@@ -170,6 +173,10 @@ impl<'a> UnwindContext<'a> {
             Err(e) => return Err(e.into()),
         };
         let cfa = dwarf.evaluate_cfa(debugee, &registers_snap, row, ecx)?;
+        let ra_undefined = matches!(
+            row.register(fde.cie().return_address_register()),
+            Some(RegisterRule::Undefined)
+        );
 
         let mut lazy_evaluator = None;
         let evaluator_init_fn = || -> Result<ExpressionEvaluator, Error> {
@@ -239,6 +246,7 @@ impl<'a> UnwindContext<'a> {
             debugee,
             fde,
             cfa,
+            ra_undefined,
         }))
     }
 
@@ -255,6 +263,10 @@ impl<'a> UnwindContext<'a> {
     }
 
     fn return_address(&self) -> Option<RelocatedAddress> {
+        if self.ra_undefined {
+            // outermost frame: the stale value left in the register map is not a caller
+            return None;
+        }
         let register = self.fde.cie().return_address_register();
         self.registers
             .value(register)
